@@ -76,6 +76,24 @@ CHECKS = {
               "final CorrFunc with fresh caches."),
         ref="5.C07", technique="Lean 4 invariant proof over a cache state machine with generated reuse rule + history correspondence",
         note="pickle round trip and program-order file writes trusted; in-memory state of the process is observed only through the final result"),
+    "C08": dict(
+        text=("Theorems about a file-level disk model (every file: absent / partially written / complete content of a "
+              "version; trees and their marker carry the binning) and the loaders' decisions (id list -> patches -> "
+              "metadata or recomputation from the data file; marker names the requested binning -> reuse the pickled "
+              "trees, else rebuild; .dat and .smp read together; HDF5 as a blob): step_inv - every operation the write "
+              "discipline `allowed` admits (payload changed only while its validity marker is absent, markers installed "
+              "by rename and only over complete payload of the same version, derived files only from complete data) "
+              "preserves a consistency invariant; MAIN crash_safe / crash_classified - for EVERY operation list of any "
+              "length obeying the discipline from a consistent disk and EVERY prefix, each use raises or returns exactly "
+              "the content of one version, the old or the new one, all uses agreeing; witness theorems show that the "
+              "three write orders found in the code before the repairs (in-place id list, trees rewritten behind a "
+              "valid marker, new .dat next to old .smp) reach a silently wrong state. Tie: generated flags for the "
+              "statement order of finalize / BinnedTrees.build / to_files + AST pins; the real workloads are executed "
+              "under strace, the recorded system calls are replayed byte-exactly, fed through the executable `allowed` "
+              "of the model, and EVERY prefix is materialised and given to the real loaders (old / new / error "
+              "classification compared with the model's prediction per crash point)."),
+        ref="5.C08", technique="Lean 4 invariant proof over a disk / write-discipline model + strace trace acceptance + exhaustive prefix replay against the real loaders",
+        note="a crash is a prefix of the recorded system calls (no reordering / power loss); partially written pickle / YAML / text / HDF5 files are assumed unreadable, which every prefix replay re-validates; the parallel code path is traced in the thorough tier only"),
     "C09": dict(
         text=("Theorems about a transition system of catalog creation (reader, bounded queue to the writer process, "
               "worker pool, writer with error pipe, finalisation) whose guards are GENERATED flags read off the source "
